@@ -287,6 +287,7 @@ func queueAlphabet(ps int, quick bool) []Q {
 		{K: queuedrv.QWrite, A: pay - 4, B: queuedrv.ChunkFirst},
 		{K: queuedrv.QWrite, A: pay - 3, B: queuedrv.ChunkOne},
 		{K: queuedrv.QWrite, A: 3000, B: queuedrv.ChunkPage},
+		{K: queuedrv.QWritePart, A: 2500, B: queuedrv.ChunkPage},
 		{K: queuedrv.QFlush},
 		{K: queuedrv.QBegin},
 		{K: queuedrv.QNext},
@@ -310,7 +311,7 @@ func runQueueCheck(ctx *core.Ctx, pool *par.Pool, id string) {
 	}
 	quick := ctx.Quick()
 	cfgs := []QCfgSpec{{File: "C", Buffer: 5}, {File: "A", Buffer: 6}}
-	depth := 6
+	depth := 5
 	ctx.SetBudget(110 * time.Second)
 	if !quick {
 		cfgs = []QCfgSpec{{File: "C", Buffer: 5}, {File: "A", Buffer: 6}, {File: "E", Buffer: 5}, {File: "D", Buffer: 5}}
@@ -377,7 +378,7 @@ func runQueueCheck(ctx *core.Ctx, pool *par.Pool, id string) {
 	var total xstate.Stats
 	for _, c := range cfgs {
 		qc, _ := c.cfg()
-		st := qBFS(ctx, pool, c, queueAlphabet(qc.File.PageSize, quick), depth, false, owns, func(from *QNode, s *QSucc, isNew bool) {
+		st := qBFSx(ctx, pool, c, queueAlphabet(qc.File.PageSize, quick), depth, false, true, owns, func(from *QNode, s *QSucc, isNew bool) {
 			if isNew && from.Depth >= 4 {
 				ctx.AddSample(map[string]interface{}{"cfg": c.String(), "history": queuedrv.PathString(append(from.Path(), s.Op)), "model": s.Desc})
 			}
